@@ -68,12 +68,24 @@ fi
 
 # ------------------------------------------------------------------------------------------------ build
 if has build; then
-  FLAGS="-C instrument-coverage -C llvm-args=-runtime-counter-relocation --cfg hyperledger_aries_askar_verif"
+  # only the three /repo crates and the harness are instrumented (RUSTC_WRAPPER): with argon2 / sqlx / the curve crates
+  # instrumented too, C02 took 129 s instead of 7 s and C08 did not finish in 7 min (16 threads on mmapped counters)
+  cat > $COV/rustc-wrap.sh <<'WRAP'
+#!/bin/sh
+rustc=$1; shift
+case " $* " in
+  *" --crate-name aries_askar "*|*" --crate-name askar_storage "*|*" --crate-name askar_crypto "*|*" --crate-name askar_harness "*)
+    exec "$rustc" "$@" -C instrument-coverage -C llvm-args=-runtime-counter-relocation ;;
+  *) exec "$rustc" "$@" ;;
+esac
+WRAP
+  chmod +x $COV/rustc-wrap.sh
+  FLAGS="--cfg hyperledger_aries_askar_verif"     # what /verif/harness/.cargo/config.toml sets
   feats=$(sed -n 's/^default = \[\(.*\)\]/\1/p' $COV/harness/Cargo.toml | tr -d '" ' | tr ',' ' ')
   : > $COV/report/build.txt
   while :; do
     echo "building features: $feats" | tee -a $COV/report/build.txt
-    (cd $COV/harness && LLVM_PROFILE_FILE=$COV/trash/build-%p.profraw RUSTFLAGS="$FLAGS" CARGO_TARGET_DIR=$COV/target \
+    (cd $COV/harness && RUSTC_WRAPPER=$COV/rustc-wrap.sh LLVM_PROFILE_FILE=$COV/trash/build-%p.profraw RUSTFLAGS="$FLAGS" CARGO_TARGET_DIR=$COV/target \
        cargo +$TOOLCHAIN build --offline --no-default-features --features "$(echo $feats | tr ' ' ',')" > $COV/report/build.log 2>&1) && break
     # a module that is mid-change by somebody else: drop its feature and say so
     bad=$(grep -oE -- '--> src/(c[0-9]+[a-z]*)(\.rs|/)' $COV/report/build.log | sed -E 's#--> src/##; s#(\.rs|/)$##' | sort -u | head -1)
